@@ -41,6 +41,8 @@ pub enum Step {
     Rand,
     /// one draw; if the value is odd take one extra yield
     RandBranch,
+    /// n draws in a row (long data streams: more values than any prefetch buffer or cache holds)
+    RandBurst(usize),
 }
 
 #[derive(Clone, Debug, PartialEq, Eq, Serialize, Deserialize, Default)]
@@ -54,7 +56,7 @@ impl Shape {
     pub fn uses_rand(&self) -> bool {
         fn any(s: &[Step]) -> bool {
             s.iter().any(|x| match x {
-                Step::Rand | Step::RandBranch => true,
+                Step::Rand | Step::RandBranch | Step::RandBurst(_) => true,
                 Step::IfOdd(_, v) | Step::Lock(_, v) => any(v),
                 _ => false,
             })
@@ -147,6 +149,17 @@ fn exec_steps(ctx: &Arc<ShapeCtx>, b: usize, steps: &[Step], handles: &mut Vec<(
                 use shuttle::rand::RngCore;
                 let v = shuttle::rand::thread_rng().next_u64();
                 sim::log("R", format!("b{}", b), v.to_string());
+            }
+            Step::RandBurst(n) => {
+                use shuttle::rand::RngCore;
+                let mut r = shuttle::rand::thread_rng();
+                let mut h = 0u64;
+                for k in 0..*n {
+                    // alternate the draw flavours (each is exactly one scheduler draw)
+                    let v = if k % 3 == 2 { r.next_u32() as u64 } else { r.next_u64() };
+                    h = h.rotate_left(7) ^ v;
+                }
+                sim::log("R", format!("b{}burst{}", b, n), h.to_string());
             }
             Step::RandBranch => {
                 use shuttle::rand::RngCore;
